@@ -123,7 +123,7 @@ static void h_free (void *p, void *u) {
 static struct MIR_alloc h_alloc = {h_malloc, h_calloc, h_realloc, h_free, NULL};
 
 /* ---- parsed items */
-enum kind { K_DATA, K_BSS, K_REF, K_LREF, K_MREF, K_EXPR, K_FUNC, K_G, K_H, K_IMPORT, K_PROTO, K_FORWARD, K_EXPORT };
+enum kind { K_DATA, K_BSS, K_REF, K_LREF, K_MREF, K_EXPR, K_FUNC, K_G, K_H, K_IMPORT, K_PREIMP, K_PROTO, K_FORWARD, K_EXPORT };
 struct pitem {
   enum kind k;
   int nm; /* -1 anonymous */
@@ -193,6 +193,7 @@ static int parse_item (char *s, struct pitem *p) {
   if (w[0][0] == 'O') {
     switch (w[0][1]) {
     case 'i': p->k = K_IMPORT; return 1;
+    case 'e': p->k = K_PREIMP; return 1; /* import of a function of an EARLIER module, linked in an earlier round */
     case 'p': p->k = K_PROTO; return 1;
     case 'f': p->k = K_FORWARD; p->def = n > 1 ? atoi (w[1]) : 0; return 1;
     case 'x': p->k = K_EXPORT; p->def = n > 1 ? atoi (w[1]) : 0; return 1;
@@ -259,6 +260,7 @@ static void item_name (char *b, int idx) {
   case K_G: sprintf (b, "g%d", idx); break;
   case K_H: sprintf (b, "h%d", idx); break;
   case K_IMPORT: sprintf (b, "imp%d", idx); break;
+  case K_PREIMP: sprintf (b, "pre%d", idx); break;
   case K_PROTO: sprintf (b, "pr%d", idx); break;
   default: sprintf (b, "d%d", p->nm); break;
   }
@@ -604,6 +606,47 @@ static void run_case (char *line) {
     return;
   }
   int have_g = -1, have_h = -1;
+  /* wave 6: an earlier link ROUND.  For every `Oe` item a module exporting a function pre<idx> () = 300 + idx is
+     built, loaded and linked with the interface of the case, and the function is called (so that with the generator
+     interfaces, lazy ones included, its machine code exists) BEFORE the module under test is created: what MIR_link
+     stores for the items of the second round may depend only on the items' addresses (item->addr + disp for a ref),
+     not on what earlier rounds have done to the definitions meanwhile */
+  {
+    int npre = 0;
+    for (int i = 0; i < nitems; i++) npre += items[i].k == K_PREIMP;
+    if (npre > 0) {
+      MIR_type_t i64 = MIR_T_I64;
+      MIR_item_t pf[MAXITEMS];
+      MIR_module_t pm = MIR_new_module (ctx, "pre");
+      for (int i = 0; i < nitems; i++) {
+        char name[32];
+        if (items[i].k != K_PREIMP) continue;
+        item_name (name, i);
+        pf[i] = MIR_new_func_arr (ctx, name, 1, &i64, 0, NULL);
+        MIR_append_insn (ctx, pf[i], MIR_new_ret_insn (ctx, 1, MIR_new_int_op (ctx, 300 + i)));
+        MIR_finish_func (ctx);
+        MIR_new_export (ctx, name);
+      }
+      MIR_finish_module (ctx);
+      MIR_load_module (ctx, pm);
+      if (iface != 'i') {
+        MIR_gen_init (ctx);
+        gen_inited = 1;
+        MIR_gen_set_optimize_level (ctx, level);
+      }
+      MIR_link (ctx,
+                iface == 'g'   ? MIR_set_gen_interface
+                : iface == 'l' ? MIR_set_lazy_gen_interface
+                : iface == 'b' ? MIR_set_lazy_bb_gen_interface
+                               : MIR_set_interp_interface,
+                NULL);
+      for (int i = 0; i < nitems; i++)
+        if (items[i].k == K_PREIMP && ((int64_t (*) (void)) pf[i]->addr) () != 300 + i) {
+          printf ("badcase pre %d\n", i);
+          return;
+        }
+    }
+  }
   MIR_module_t m = MIR_new_module (ctx, "m");
   for (int k = 0; k < 2; k++) hlabels[k] = MIR_new_label (ctx);
   for (int k = 0; k < gnlab; k++) glabels[k] = MIR_new_label (ctx);
@@ -664,6 +707,7 @@ static void run_case (char *line) {
       have_h = i;
       break;
     case K_IMPORT: item_name (name, i); p->it = MIR_new_import (ctx, name); break;
+    case K_PREIMP: item_name (name, i); p->it = MIR_new_import (ctx, name); break;
     case K_PROTO: item_name (name, i); p->it = MIR_new_proto_arr (ctx, name, 1, &i64, 0, NULL); break;
     case K_FORWARD: item_name (name, p->def); p->it = MIR_new_forward (ctx, name); break;
     case K_EXPORT: item_name (name, p->def); p->it = MIR_new_export (ctx, name); break;
@@ -677,7 +721,7 @@ static void run_case (char *line) {
       MIR_load_external (ctx, name, extbuf[i]);
     }
   MIR_load_module (ctx, m);
-  if (iface != 'i') {
+  if (iface != 'i' && !gen_inited) {
     MIR_gen_init (ctx);
     gen_inited = 1;
     MIR_gen_set_optimize_level (ctx, level);
